@@ -202,6 +202,7 @@ package collection
 //@   ensures [no-boundary-no-change] now >= old(rw.lastTime) && sp == 0 ==> rw.lastTime == old(rw.lastTime) && rw.offset == old(rw.offset)
 //@   ensures [shape] rw.size == old(rw.size) && rw.win == old(rw.win) && rw.interval == old(rw.interval) && rw.win.buckets == old(rw.win.buckets)
 //@   modifies rw.offset, rw.lastTime, Bucket.Sum, Bucket.Count
+//@   inline always
 
 // ---------------- Cache (in-memory LRU) ----------------
 
@@ -275,3 +276,48 @@ package collection
 //@   opaque RemoveTimer
 //@   requires c != nil && c.data != nil
 //@   ensures [dropped] !has(c.data, key) && calls(c.timingWheel.RemoveTimer) == 1
+
+// Add(v) at time `now` (one call = one instant): after expiring the passed buckets, v goes into the bucket of
+// the current interval and into no other; buckets still inside the window keep their contents.
+//@ func (*RollingWindow).Add
+//@   prop C09, C01
+//@   requires rwOK(rw)
+//@   let now = ret(timex.Now, 0, 1)
+//@   let same = calls(timex.Now) == 2 && ret(timex.Now, 0, 2) == now && now >= old(rw.lastTime) || calls(timex.Now) == 1 && now >= old(rw.lastTime)
+//@   let sp = old(rwSpan(rw, now))
+//@   let cur = wrap(old(rw.offset) + sp, rw.size)
+//@   ensures [lands-in-current-bucket] same ==> rw.offset == cur && rw.win.buckets[cur].Sum == ite(sp > 0, 0.0, old(rw.win.buckets[cur].Sum)) + v && rw.win.buckets[cur].Count == ite(sp > 0, 0, old(rw.win.buckets[cur].Count)) + 1
+//@   ensures [expired-emptied] same ==> forall(j, 0, rw.size, j != cur && wrap(j - old(rw.offset) - 1, rw.size) < sp ==> rw.win.buckets[j].Sum == 0.0 && rw.win.buckets[j].Count == 0)
+//@   ensures [others-kept] same ==> forall(j, 0, rw.size, j != cur && wrap(j - old(rw.offset) - 1, rw.size) >= sp ==> rw.win.buckets[j].Sum == old(rw.win.buckets[j].Sum) && rw.win.buckets[j].Count == old(rw.win.buckets[j].Count))
+//@   ensures [under-lock] calls(on("lock", rw.lock)) == 1 && calls(on("unlock", rw.lock)) == 1
+//@   modifies rw.offset, rw.lastTime, Bucket.Sum, Bucket.Count
+
+// window.reduce: fn is called exactly once on each of the `count` buckets start, start+1, ... (mod size), in order.
+//@ func (*window).reduce
+//@   prop C09, C01
+//@   requires w != nil && w.size >= 1 && len(w.buckets) == w.size && start >= 0 && count >= 0
+//@   loop 1 invariant 0 <= i && i <= count
+//@   loop 1 iteration-ensures [one-call-per-bucket-in-order] calls(fn) == 1 && arg(fn, 0) == w.buckets[(start + at_head(i)) % w.size] && i == at_head(i) + 1
+//@   ensures [none-for-empty-range] count <= 0 ==> calls(fn) == 0
+//@   modifies nothing
+
+// Reduce at time `now`: visits the size - span buckets that are still inside the window (one fewer when the
+// current bucket is ignored and no boundary has passed), oldest first, starting right after the expired ones.
+//@ func (*RollingWindow).Reduce
+//@   prop C09, C01
+//@   opaque reduce
+//@   requires rwOK(rw)
+//@   let now = ret(timex.Now)
+//@   let sp = rwSpan(rw, now)
+//@   let visible = ite(sp == 0 && rw.ignoreCurrent, rw.size - 1, rw.size - sp)
+//@   ensures [visits-the-live-buckets] now >= rw.lastTime && visible > 0 ==> calls(rw.win.reduce) == 1 && arg(reduce, 1) == (rw.offset + sp + 1) % rw.size && arg(reduce, 2) == visible && arg(reduce, 3) == fn
+//@   ensures [nothing-visible] now >= rw.lastTime && visible <= 0 ==> calls(reduce) == 0
+//@   ensures [read-only] rw.offset == old(rw.offset) && rw.lastTime == old(rw.lastTime)
+//@   modifies nothing
+
+// The bucket visited at step i of Reduce is the one of age size-1-i (age 0 = current interval) in the ring.
+//@ lemma reduce_visits_by_age(size int, offset int, sp int, i int)
+//@   prop C09
+//@   requires size >= 1 && 0 <= offset && offset < size && 0 <= sp && sp <= size && 0 <= i && i < size - sp
+//@   ensures emod(emod(offset + sp + 1, size) + i, size) == emod(offset + sp - (size - 1 - i), size)
+//@   ensures size - 1 - i >= sp && size - 1 - i <= size - 1
